@@ -29,6 +29,7 @@ type cenv struct {
 	loopPre *State // loop invariants: the state in which the loop was entered, for entry(e)
 	root   *cenv // the clause's top-level environment: lets are evaluated there, once
 	lets   map[string]Value
+	pos    token.Pos // where the clause is evaluated (loop or call position): decides which of several same-named locals is meant
 }
 
 func (e *cenv) child() *cenv {
@@ -210,6 +211,17 @@ func (e *cenv) ident(name string) Value {
 	}
 	if e.fn != nil {
 		if e.body && !e.inOld {
+			if a := fx.allocInScope(e.fn, name, e.pos); a != nil {
+				if fx.isCell(a) {
+					if v, ok := e.st.cells[a]; ok {
+						return v
+					}
+					return fx.zeroValue(a.Type().(*types.Pointer).Elem())
+				}
+				if addr, ok := e.st.vals[a]; ok {
+					return fx.load(e.st, e.reach, addr, a.Type().(*types.Pointer).Elem())
+				}
+			}
 			if a := fx.cellByName(e.fn, name); a != nil {
 				if v, ok := e.st.cells[a]; ok {
 					return v
@@ -801,6 +813,21 @@ func (e *cenv) call(x *CExpr) Value {
 				return v
 			}
 			return fx.zeroValue(a.Type().(*types.Pointer).Elem())
+		case "outer":
+			// outer(x): the captured (heap allocated) local x of the function under verification, for clauses of
+			// functions and closures that are inlined into it
+			if len(args) != 1 || args[0].Kind != "ident" {
+				cfail("outer needs a variable name")
+			}
+			a := fx.heapLocalByName(fx.fn, args[0].Name)
+			if a == nil {
+				cfail("no captured local %s in %s", args[0].Name, fx.fn.Name())
+			}
+			addr, ok := e.st.vals[a]
+			if !ok {
+				cfail("captured local %s is not live here", args[0].Name)
+			}
+			return fx.load(e.st, e.reach, addr, a.Type().(*types.Pointer).Elem())
 		case "lenmap":
 			// lenmap(T.f): the map from object references of type T to len(T.f) in the current state
 			if len(args) != 1 || args[0].Kind != "sel" || args[0].Args[0].Kind != "ident" {
